@@ -4,6 +4,7 @@ import Driver.Routing
 import Driver.Tls
 import Driver.Acl
 import Driver.Translate
+import Driver.NameMap
 /-
 Model driver: reads the op lines a harness engine wrote (first line `engine <name>`), runs the
 executable Lean model, prints one observation line per op line.  `/verif/check` diffs this
@@ -20,6 +21,7 @@ inductive St where
   | tls
   | acl
   | translate
+  | namemap
 
 def initSt (engine : String) : Option St :=
   match engine with
@@ -30,6 +32,7 @@ def initSt (engine : String) : Option St :=
   | "tls" => some .tls
   | "acl" => some .acl
   | "translate" => some .translate
+  | "namemap" => some .namemap
   | _ => Option.none
 
 def stepSt (st : St) (line : String) : St × String :=
@@ -42,6 +45,7 @@ def stepSt (st : St) (line : String) : St × String :=
   | .tls => (.tls, Drv.Tls.step line)
   | .acl => (.acl, Drv.Acl.step line)
   | .translate => (.translate, Drv.Translate.step line)
+  | .namemap => (.namemap, Drv.NameMap.step line)
 
 partial def loop (h : IO.FS.Stream) (out : IO.FS.Stream) (st : St) : IO Unit := do
   let line ← h.getLine
